@@ -46,7 +46,13 @@ def make_spec(case):
             x0 = np.clip(x0, lb, ub)
             i = int(rng.integers(n))
             lb[i] = ub[i] = x0[i] = float(rng.choice([-1.0, 1.0])) * \
-                10.0 ** rng.uniform(3, 13)
+                10.0 ** (rng.uniform(3, 13) if rng.random() < 0.7
+                         else rng.uniform(150, 300))
+            if rng.random() < 0.25:
+                # no variable fixed at all: a huge but finite box
+                big = 10.0 ** rng.uniform(150, 305, n)
+                lb, ub = -big, big * rng.uniform(0.5, 1.0, n)
+                x0 = rng.uniform(-2, 2, n)
         elif kind.startswith("allfixed"):
             lb = x0 + rng.uniform(-1, 1, n)
             ub = lb.copy()
